@@ -109,9 +109,10 @@ Judge(k, beyond) ==
          THEN Decide("rejected", <<"event-after-silent-divergence", k, Log[k]>>)
          ELSE Decide("run", why)
 
-TraceNext ==
+\* the trace specification's step: the canonical machine's action A, conjoined with the log
+Observe(A) ==
   /\ verdict = "run"
-  /\ Step                                  \* the specification's own step
+  /\ A                                     \* the specification's own step
   /\ LET e      == last'
          hasEv  == e # NoEv /\ Claim # "classify"
          beyond == hasEv /\ l > Len(Log)
@@ -123,6 +124,18 @@ TraceNext ==
             ELSE IF beyond /\ ~PrefixClaim
             THEN Decide("rejected", <<"missing-event", l, e>>)
             ELSE Judge(k, beyond)
+
+\* one trace action per machine action (so that TLC's coverage counts them separately)
+TInc == Observe(Inc)            TDec == Observe(Dec)
+TRight == Observe(Right)        TLeft == Observe(Left)
+TOpen == Observe(Open)          TClose == Observe(Close)
+TComment == Observe(Comment)
+TOut == Observe(Out)            TOutRefused == Observe(OutRefused)
+TIn == Observe(In)              TInFailed == Observe(InFailed)      TInMissing == Observe(InMissing)
+THalt == Observe(Halt)          TCapped == Observe(Capped)
+
+TraceNext == \/ TInc \/ TDec \/ TRight \/ TLeft \/ TOpen \/ TClose \/ TComment
+             \/ TOut \/ TOutRefused \/ TIn \/ TInFailed \/ TInMissing \/ THalt \/ TCapped
 
 TraceSpec == TraceInit /\ [][TraceNext]_vars
 
